@@ -92,7 +92,7 @@ def run(tier, seed, rng):
     outs = run_impl_parallel(os.path.join(VERIF, 'harness', 'impl_desc.py'), [dict(histories=p) for p in parts])
     outcomes = [o for p in outs for o in p]
     failures, lines = [], []
-    dist = dict(steps=0, packs=0, reads_explicit=0, reads_computed=0, exceptions=0, has_dict=0)
+    dist = dict(steps=0, packs=0, reads_explicit=0, reads_computed=0, exceptions=0, has_dict=0, two_described_histories=0)
     for h, o in zip(hs, outcomes):
         kind = 0 if h['cls'].startswith(('Len', 'Emb', 'Pla', 'Ref')) else 1
         want = spec_run(kind, h['ops'])
@@ -118,6 +118,47 @@ def run(tier, seed, rng):
     for h in hs:
         for (r, w), op in zip(spec_run(0 if h['cls'].startswith(('Len', 'Emb', 'Pla', 'Ref')) else 1, h['ops']), h['ops']):
             pass
+    # ---- TWO described fields in one packet (names chosen alike: size / csize, len / dlen, id / crc): whatever is done to one of them
+    # -- set, delete, change of its tracked field -- the other keeps reading as computed and is serialized as such
+    tsrc = "from bisturi.packet import Packet\nfrom bisturi.field import Int, Data\nfrom bisturi.descriptor import AutoLength\n"
+    pairs = [('size', 'csize'), ('len_', 'dlen_'), ('id', 'crc'), ('n', 'nn')]
+    for k, (a, b) in enumerate(pairs):
+        for g, conf in (('G', '{}'), ('L', "{'generate_for_pack': False, 'generate_for_unpack': False}")):
+            tsrc += (f"class Two{g}{k}(Packet):\n    __bisturi__ = {conf}\n    {a} = Int(1).describe(AutoLength('body'))\n    {b} = Int(1).describe(AutoLength('comment'))\n"
+                     f"    body = Data({a})\n    comment = Data({b})\n")
+    tsrc += ("def two_run(cls, a, b, ops):\n    p = cls(body=b'xy', comment=b'q')\n    out = []\n    for op in ops:\n"
+             "        if op == 'setA': setattr(p, a, 7)\n        elif op == 'delA': delattr(p, a)\n        elif op == 'bodyA': p.body = p.body + b'z'\n"
+             "        elif op == 'setB': setattr(p, b, 5)\n        elif op == 'delB': delattr(p, b)\n        elif op == 'commentB': p.comment = p.comment + b'w'\n"
+             "        elif op == 'pack': p.pack()\n        out.append([getattr(p, a), getattr(p, b), list(p.pack()[:2]), len(p.body), len(p.comment)])\n    return out\n")
+    import itertools as _it2
+    tops = ['setA', 'delA', 'bodyA', 'setB', 'delB', 'commentB', 'pack']
+    tcases, tmeta = [], []
+    for k, (a, b) in enumerate(pairs):
+        for g in 'GL':
+            for L in (1, 2, 3):
+                for combo in _it2.product(tops, repeat=L):
+                    if L == 3 and (k or g == 'L') and (tops.index(combo[0]) * 49 + tops.index(combo[1]) * 7 + tops.index(combo[2])) % 5:
+                        continue
+                    tcases.append(dict(cls=f"Two{g}{k}", op='default', value={"py": f"two_run(Two{g}{k}, {a!r}, {b!r}, {list(combo)!r})"}))
+                    tmeta.append((f"Two{g}{k}", a, b, combo))
+    tres = run_impl(os.path.join(VERIF, 'harness', 'impl_pkt.py'), dict(header='', blocks=[dict(name='two', src=tsrc)], modname='c17t', cases=tcases))
+    dist['two_described_histories'] = len(tcases)
+    for (cls, a, b, combo), o in zip(tmeta, tres['outcomes']):
+        expA = expB = None          # None: computed
+        want = []
+        nb, nc = 2, 1
+        for op in combo:
+            if op == 'setA': expA = 7
+            elif op == 'delA': expA = None
+            elif op == 'bodyA': nb += 1
+            elif op == 'setB': expB = 5
+            elif op == 'delB': expB = None
+            elif op == 'commentB': nc += 1
+            ra, rb = (nb if expA is None else expA), (nc if expB is None else expB)
+            want.append([ra, rb, [ra, rb], nb, nc])
+        if o.get('ok') != want:
+            failures.append(dict(kind='oracle', sig='two-described-fields', what=f"{cls}: described fields {a!r} (tracks body) and {b!r} (tracks comment), operations {list(combo)}: after each step [read {a}, read {b}, first two bytes of pack(), len(body), len(comment)] must be {want}; observed {str(o)[:300]}",
+                                 classes=tsrc, cls=cls, history=list(combo), observed=o, required=want))
     csize = 700
     files = [(f"cases_{i}", HEADER_COQ + "Definition cases : list (Z * list (dop Z) * list (Z * option Z)) := [\n" + ";\n".join(p) +
               "\n].\nEval vm_compute in (bad 0 cases).\n") for i, p in enumerate(shard(lines, csize))]
